@@ -20,6 +20,7 @@ import (
 	"sort"
 	"strings"
 	"sync"
+	"sync/atomic"
 	"testing"
 	"time"
 
@@ -572,4 +573,111 @@ func TestKF_C12_HeldRepositoryBlocksStore(t *testing.T) {
 		Fail(kfT{t}, st, "held-repository-blocks-store", fmt.Sprintf("GET /v2/other/tags/list with a 20 ms deadline returned after %v (status %d) while a stalled PUT kept repository \"held\" open", took.Round(time.Millisecond), w.Code),
 			[]string{"dir store, grace 20 ms", "PUT /v2/held/manifests/slow: body stalls for 1.2 s (the handler holds the repository)", "+150 ms: GET /v2/other/tags/list with a context that expires after 20 ms", "the GET returns only when the PUT has finished"}, nil)
 	}
+}
+
+// ---- Close while requests are running
+
+const c12cRule = "TestC12CloseUnderLoad: 2-5 clients send requests (slow manifest PUTs that keep the repository held, tag lists, uploads, blob HEADs; one or two repositories) with a 1 ms GC ticker; Server.Close is called after 0-8 ms while " +
+	"they are still running, as a program does whose handler outlives the registry (the README example closes the registry before the test server); oracle = Close returns within 20 s and does not panic, every client request " +
+	"returns within 20 s (whatever its status; a handler that finds the store gone counts as returned); non-trivial = Close was called while >=1 request was in flight; distinct = hash of the program + delay"
+
+func c12CloseProperty(t *rapid.T, st *Stats) {
+	dirStore := rapid.Bool().Draw(t, "dirStore")
+	nClients := rapid.IntRange(2, 5).Draw(t, "nClients")
+	delay := time.Duration(rapid.IntRange(0, 8000).Draw(t, "closeAfterUs")) * time.Microsecond
+	type step struct{ kind, repo string }
+	progs := make([][]step, nClients)
+	for c := range progs {
+		for i, n := 0, rapid.IntRange(2, 8).Draw(t, "nRequests"); i < n; i++ {
+			progs[c] = append(progs[c], step{rapid.SampledFrom([]string{"slowPut", "slowPut", "tags", "upload", "head"}).Draw(t, "request"), rapid.SampledFrom([]string{"x", "x", "y"}).Draw(t, "repo")})
+		}
+	}
+	trace := []string{fmt.Sprintf("dir=%v gcFrequency=1ms Close after %v", dirStore, delay)}
+	for c, p := range progs {
+		trace = append(trace, fmt.Sprintf("client %d: %v", c, p))
+	}
+	fail := func(key, f string, a ...any) { Fail(t, st, key, fmt.Sprintf(f, a...), trace, nil) }
+	e, _ := newEnv(t, st, dirStore, func(c *config.Config) {
+		c.Storage.GC.Frequency = time.Millisecond
+		c.Storage.GC.GracePeriod = 20 * time.Millisecond
+	})
+	defer func() {
+		if e.root != "" {
+			go func(r string) { time.Sleep(time.Second); removeAll(r) }(e.root)
+		}
+	}()
+	us := map[string]*cUniverse{}
+	for _, rn := range []string{"x", "y"} {
+		u, err := newCUniverse(e.srv, rn)
+		if err != nil {
+			t.Skip("setup failed")
+		}
+		us[rn] = u
+	}
+	var inFlight, handlerPanics atomic.Int64
+	var wg sync.WaitGroup
+	for c := range progs {
+		wg.Add(1)
+		go func(c int) {
+			defer wg.Done()
+			for i, s := range progs[c] {
+				u := us[s.repo]
+				inFlight.Add(1)
+				func() {
+					defer inFlight.Add(-1)
+					defer func() {
+						if recover() != nil {
+							handlerPanics.Add(1) // the handler found the store gone: it returned, which is all that counts here
+						}
+					}()
+					switch s.kind {
+					case "slowPut":
+						_, _, _ = c12Exec(e.srv, u, cOp{Kind: "slowPut", Man: i % nCMans, N: 1}, new(int64))
+					case "tags":
+						_ = doReq(e.srv, "GET", "/v2/"+s.repo+"/tags/list", nil, nil)
+					case "upload":
+						b := []byte(fmt.Sprintf("blob-%d-%d", c, i))
+						_ = doReq(e.srv, "POST", "/v2/"+s.repo+"/blobs/uploads/?digest="+dig("sha256", b), b, nil)
+					case "head":
+						_ = doReq(e.srv, "HEAD", "/v2/"+s.repo+"/blobs/"+u.cfg, nil, nil)
+					}
+				}()
+			}
+		}(c)
+	}
+	time.Sleep(delay)
+	under := inFlight.Load() > 0
+	closed := make(chan any, 1)
+	go func() {
+		defer func() { closed <- recover() }()
+		_ = e.srv.Close()
+	}()
+	select {
+	case p := <-closed:
+		if p != nil {
+			fail("close-panics", "Server.Close panicked while requests were running: %v\n%s", p, olaregStacks())
+		}
+	case <-time.After(20 * time.Second):
+		fail("close-hangs", "Close did not return within 20 s while requests were running\nblocked on mutexes: %s\n\n%s", strings.Join(vsync.Waiting(), " | "), olaregStacks())
+	}
+	done := make(chan struct{})
+	go func() { wg.Wait(); close(done) }()
+	select {
+	case <-done:
+	case <-time.After(20 * time.Second):
+		fail("stall", "%d client request(s) had not returned 20 s after Close\nblocked on mutexes: %s\n\n%s", inFlight.Load(), strings.Join(vsync.Waiting(), " | "), olaregStacks())
+	}
+	cl := []string{"mem"}
+	if dirStore {
+		cl[0] = "dir"
+	}
+	if handlerPanics.Load() > 0 {
+		cl = append(cl, "handler-found-store-gone")
+	}
+	st.CaseSample(trace, trace, under, cl...)
+}
+
+func TestC12CloseUnderLoad(t *testing.T) {
+	st := newStats("TestC12CloseUnderLoad", "C12", c12cRule)
+	rapid.Check(t, func(rt *rapid.T) { c12CloseProperty(rt, st) })
 }
